@@ -303,13 +303,13 @@ func c14rCheck(w *c14rWorld, r *mc.Result) mc.Verdict {
 				}
 			}
 		}
-		for cm := range committees {
+		for _, cm := range keysSorted(committees) {
 			if got[cm] != 1 {
 				return fail("aggregation-job-missing", fmt.Sprintf("slot %d committee %d was attested by a selected aggregator but %d aggregations ran for it", c.slot, cm, got[cm]))
 			}
 		}
-		for cm, n := range got {
-			if !committees[cm] && n > 0 {
+		for _, cm := range keysSorted(got) {
+			if n := got[cm]; !committees[cm] && n > 0 {
 				return fail("aggregation-job-unexpected", fmt.Sprintf("an aggregation ran for slot %d committee %d, in which no selected aggregator of ours attested", c.slot, cm))
 			}
 		}
